@@ -1352,7 +1352,13 @@ def b5(repo: Repo) -> RuleResult:
                 ge = rv.args[0]
                 g0 = ge.generators[0] if len(ge.generators) == 1 else None
                 okg = False
-                if g0 is not None and isinstance(g0.target, ast.Tuple) and len(g0.target.elts) == 2 and all(isinstance(x, ast.Name) for x in g0.target.elts) and src_of(g0.iter).replace(" ", "") == "self.members.items()":
+                it_src = g0.iter if g0 is not None else None
+                if isinstance(it_src, ast.Name):
+                    # a local bound once to the iterable
+                    b_ = [a_ for a_ in ast.walk(fi.node) if isinstance(a_, ast.Assign) and len(a_.targets) == 1 and isinstance(a_.targets[0], ast.Name) and a_.targets[0].id == it_src.id]
+                    if len(b_) == 1:
+                        it_src = b_[0].value
+                if g0 is not None and isinstance(g0.target, ast.Tuple) and len(g0.target.elts) == 2 and all(isinstance(x, ast.Name) for x in g0.target.elts) and it_src is not None and src_of(it_src).replace(" ", "") == "self.members.items()":
                     kn, vn = g0.target.elts[0].id, g0.target.elts[1].id
                     idt = [c_ for c_ in g0.ifs if isinstance(c_, ast.Compare) and len(c_.ops) == 1 and isinstance(c_.ops[0], ast.Is) and {src_of(c_.left), src_of(c_.comparators[0])} == {vn, prm[1]}]
                     okg = bool(idt) and isinstance(ge.elt, ast.Name) and ge.elt.id == kn
